@@ -157,6 +157,9 @@ def run_campaign(pid, tier="quick", base_seed=0, workers=None, n=None, wall_cap=
 
 
 def minimise(mod, spec, key, budget=400):
+    if "SutHang" in key:
+        budget = min(budget, 25)  # every evaluation of a non-terminating call costs the watchdog interval
+
     def still(s):
         s = dict(s)
         r = mod.run(s)
@@ -256,7 +259,8 @@ def check(pid, tier="quick", base_seed=0, workers=None, n=None, wall_cap=None):
     total = run_campaign(pid, tier, base_seed, workers, n, wall_cap)
     known = findings.load()
     post_extra = {}
-    if hasattr(mod, "post"):
+    if hasattr(mod, "post") and not any("SutHang" in v["key"] for (_, _, v) in total["viol"]):
+        # (a tree on which calls do not terminate has its violation already; the sequential twin batch would only wait)
         t1 = time.time()
         post_extra, post_viol = mod.post(tier, base_seed)
         total["viol"].extend(post_viol)
